@@ -44,7 +44,7 @@ ASSUMPTIONS = [
     'is not a metric and is excluded)',
     'the near-pi grid stops at pi - 1e-6 and pi itself (exactly symmetric and rounding-level asymmetric half-turns both occur)',
 ]
-REQUIRED_CLASSES = ['pairs:group', 'pairs:conjugate', 'zero:same', 'zero:antipodal', 'angle:pi', 'angle:<1e-2',
+REQUIRED_CLASSES = ['containers:matrix', 'containers:quaternion', 'pairs:group', 'pairs:conjugate', 'zero:same', 'zero:antipodal', 'angle:pi', 'angle:<1e-2',
                     'angle:near-pi', 'inv:left', 'inv:right', 'triangle:tight', 'triangle:strict', 'triangle:geodesic',
                     'entry:single', 'entry:N-row', 'cf:right', 'cf:left']
 
@@ -548,6 +548,87 @@ def job_reuse(ctx, k):
     ctx.states += 8
 
 
+def job_containers(ctx, k):
+    """The same pairs handed over in other containers / numeric types / memory layouts (single precision and integer arrays of exactly
+    representable rotations, Fortran-ordered arrays, transposed views, nested lists, ahrs.DCM and ahrs.Quaternion objects built from such
+    arrays): every metric returns what it returns for the float64 C-ordered arrays."""
+    from mc import alphabet as A
+    from mc.ref import quat as rq
+    from ahrs import DCM, Quaternion
+    M = _M()
+    G = A.G48()
+    cube = [g for g in G if np.allclose(rq.R(g), np.rint(rq.R(g)))]          # 24 signed permutation matrices (exact in every numeric type)
+    Rc = [np.rint(rq.R(g)) for g in cube]
+    gen = [rq.R(q) for q in (A.MENU[k], A.MENU[(k + 3) % 8], A.Gl(A.G120(), k)[17])]
+    mat_carriers = [('float32', lambda R: R.astype(np.float32), True), ('int32', lambda R: R.astype(np.int32), True), ('int8', lambda R: R.astype(np.int8), True),
+                    ('int64', lambda R: R.astype(np.int64), True), ('nested list', lambda R: [[float(x) for x in r] for r in R], False),
+                    ('Fortran-ordered', lambda R: np.asfortranarray(R), False), ('transposed view', lambda R: R.T.copy().T, False),
+                    ('DCM', lambda R: DCM(R.copy()), False), ('DCM(Fortran-ordered)', lambda R: DCM(np.asfortranarray(R)), False),
+                    ('DCM(transposed view)', lambda R: DCM(R.T.copy().T), False), ('strided view', lambda R: np.repeat(np.repeat(R, 2, axis=0), 2, axis=1)[::2, ::2], False)]
+    pairs = [(Rc[i], Rc[j], f'cube[{i}]~cube[{j}]', True) for i, j in ((0, 0), (1, 5), (7, 7), (3, 20), (11, 2), (23, 14))]
+    pairs += [(gen[i], gen[j], f'generic#{i}~generic#{j}', False) for i, j in ((0, 1), (1, 2), (2, 2), (2, 0))]
+    pairs += [(gen[0], Rc[9], 'generic#0~cube[9]', False), (Rc[4], gen[1], 'cube[4]~generic#1', False)]
+    for m in RM:
+        fn = getattr(M, m)
+        for R1, R2, lab, exact in pairs:
+            ref = float(fn(R1.copy(), R2.copy()))
+            for cn1, c1, need_exact1 in mat_carriers:
+                for cn2, c2, need_exact2 in [('float64', lambda R: R.copy(), False)] + mat_carriers:
+                    e1 = bool(np.array_equal(R1, np.rint(R1))); e2 = bool(np.array_equal(R2, np.rint(R2)))
+                    for swap in (False, True):
+                        if not swap and ((need_exact1 and not e1) or (need_exact2 and not e2)):
+                            continue
+                        if swap and ((need_exact2 and not e1) or (need_exact1 and not e2)):
+                            continue
+                        a, b = (c1(R1), c2(R2)) if not swap else (c2(R1), c1(R2))
+                        key = f'{lab} first as {cn1 if not swap else cn2}, second as {cn2 if not swap else cn1}'
+                        ctx.evals += 1
+                        try:
+                            v = float(fn(a, b))
+                        except Exception as ex:
+                            if 'list' in cn1 + cn2 and isinstance(ex, (TypeError, AttributeError)):
+                                ctx.outcome(('container-refused', m))
+                                continue
+                            ctx.fail(f'{m}: raises for arguments in another container / numeric type / layout', key, f'{type(ex).__name__}: {ex}'[:160], ref)
+                            continue
+                        tol = 1e-6 if 'float32' in cn1 + cn2 else 1e-12
+                        ctx.expect(abs(v - ref) <= tol, f'{m}: same distance whatever container / numeric type / layout carries the matrices', key, v, ref, tol)
+            ctx.seen(('containers', m, lab))
+        ctx.cls('containers:matrix')
+    Q8 = [np.array(v, float) for v in ([1, 0, 0, 0], [0, 1, 0, 0], [0, 0, -1, 0], [0, 0, 0, 1], [-1, 0, 0, 0])]
+    qgen = [A.MENU[k], A.MENU[(k + 5) % 8]]
+    q_carriers = [('float32', lambda q: q.astype(np.float32), False), ('int64', lambda q: q.astype(np.int64), True), ('int list', lambda q: [int(x) for x in q], True),
+                  ('float list', lambda q: [float(x) for x in q], False), ('tuple', lambda q: tuple(float(x) for x in q), False),
+                  ('Quaternion', lambda q: Quaternion(q.copy()), False), ('strided view', lambda q: np.repeat(q, 2)[::2], False)]
+    qpairs = [(Q8[i], Q8[j], f'Q8[{i}]~Q8[{j}]') for i, j in ((0, 0), (0, 4), (1, 2), (3, 0))] + [(Q8[1], qgen[0], 'Q8[1]~generic#0'), (qgen[0], qgen[1], 'generic#0~generic#1'),
+                                                                                                 (qgen[1], Q8[2], 'generic#1~Q8[2]')]
+    for m in QM:
+        fn = getattr(M, m)
+        for q1, q2, lab in qpairs:
+            ref = float(fn(q1.copy(), q2.copy()))
+            for cn1, c1, ne1 in q_carriers:
+                for cn2, c2, ne2 in [('float64', lambda q: q.copy(), False)] + q_carriers:
+                    if (ne1 and not np.array_equal(q1, np.rint(q1))) or (ne2 and not np.array_equal(q2, np.rint(q2))):
+                        continue
+                    key = f'{lab} first as {cn1}, second as {cn2}'
+                    ctx.evals += 1
+                    try:
+                        v = float(fn(c1(q1), c2(q2)))
+                    except (TypeError, AttributeError):
+                        ctx.outcome(('container-refused', m))
+                        continue
+                    except Exception as ex:
+                        ctx.fail(f'{m}: raises for arguments in another container / numeric type', key, f'{type(ex).__name__}: {ex}'[:160], ref)
+                        continue
+                    tol = 2e-3 if 'float32' in cn1 + cn2 else 1e-12           # arccos-type metrics near 0: sqrt(eps_single)
+                    ctx.expect(abs(v - ref) <= tol, f'{m}: same distance whatever container / numeric type carries the quaternions', key, v, ref, tol)
+            ctx.seen(('containers', m, lab))
+        ctx.cls('containers:quaternion')
+    ctx.sample({'matrix_carriers': [c[0] for c in mat_carriers], 'quaternion_carriers': [c[0] for c in q_carriers]})
+    ctx.transitions += len(pairs) * len(RM) + len(qpairs) * len(QM)
+    ctx.states += len(pairs) + len(qpairs)
+
+
 def job_nrow_matrix_note(ctx):
     """Not judged: what identity_deviation / angular_distance do with (N,3,3) input (documented for one 3x3 pair)."""
     S = A.Gl(A.G48(), 0)
@@ -608,6 +689,8 @@ def run(ctx):
         jobs.append(('job_cf', (pidx,)))
     jobs.append(('job_nrow_matrix_note', ()))
     jobs.append(('job_reuse', (A.seed_k(ctx.seed) if not ctx.thorough else 0,)))
+    for kk in (ks if ctx.thorough else ks[:1]):
+        jobs.append(('job_containers', (kk,)))
     core.run_jobs(ctx, __name__, jobs)
     ctx.notes['menu_entries'] = ks
     ctx.notes['angle_grid'] = [tstr(t) for t in tgrid(ctx.thorough)]
